@@ -36,6 +36,7 @@ type Engine struct {
 	srcCache   map[string][]byte
 	typeIds    map[string]int
 	modsets    map[*ssa.Function]*ModSet
+	rawsets    map[*ssa.Function]*ModSet // contract-free body summaries
 	universe   []string // heap-map prefixes inside which frames are tracked
 	mu         sync.Mutex
 	unresolved map[string]int
@@ -58,7 +59,7 @@ func fnName(fn *ssa.Function) string {
 func LoadEngine(repo string) (*Engine, error) {
 	e := &Engine{repo: repo, pkgs: map[string]*packages.Package{}, spkgs: map[string]*ssa.Package{},
 		funcs: map[string]*ssa.Function{}, contracts: map[string]*Contract{}, specFuncs: map[string]*SpecFunc{},
-		srcCache: map[string][]byte{}, typeIds: map[string]int{}, modsets: map[*ssa.Function]*ModSet{}, ghosts: map[string]*GhostDecl{}}
+		srcCache: map[string][]byte{}, typeIds: map[string]int{}, modsets: map[*ssa.Function]*ModSet{}, rawsets: map[*ssa.Function]*ModSet{}, ghosts: map[string]*GhostDecl{}}
 	e.fset = token.NewFileSet()
 	cfg := &packages.Config{Mode: packages.LoadAllSyntax, Dir: repo, Fset: e.fset, BuildFlags: []string{"-tags=verif"},
 		Env: append(os.Environ(), "GOFLAGS=-mod=mod", "GOPROXY=off", "GOSUMDB=off", "GOTOOLCHAIN=local")}
@@ -313,6 +314,7 @@ type structInfo struct {
 // ---------------------------------------------------------------- modsets
 
 type ModSet struct {
+	Outside bool // everything outside the frame universe may change (a contracted callee whose body could not be summarised)
 	All    bool
 	Except []string // when All: heap-map prefixes that are nevertheless preserved
 	Maps   map[string]bool
@@ -336,6 +338,10 @@ func intersectPats(a, b []string) []string {
 
 func (m *ModSet) add(o *ModSet) bool {
 	ch := false
+	if o.Outside && !m.Outside {
+		m.Outside = true
+		ch = true
+	}
 	if o.All {
 		if !m.All {
 			m.All = true
